@@ -99,6 +99,39 @@ def Diff.merge (d inc : Diff) : Diff :=
 /-- `stateDiff := core.EmptyStateDiff(); for _, x := range ds { stateDiff.Merge(x) }` -/
 def Diff.mergeAll (ds : List Diff) : Diff := ds.foldl Diff.merge Diff.empty
 
+/-! ### the wire form of a state diff and `sn2core.AdaptStateDiff` (round 5)
+
+`starknet.StateDiff` carries LISTS (`deployed_contracts`, `replaced_classes`, `declared_classes`,
+`migrated_compiled_classes`, per contract the list of `{key, value}` storage entries) and two JSON
+objects keyed by address (`storage_diffs`, `nonces`). `AdaptStateDiff` builds every Go map by
+assignment in list order, so a key that occurs twice ends up with the LATER value; `OldDeclaredContracts`
+is taken over as the slice it is. -/
+
+structure WireDiff where
+  storage     : List ((Felt × Felt) × Felt) := []   -- storage_diffs, flattened: (address, key) ↦ value, in wire order
+  nonces      : List (Felt × Felt) := []
+  deployed    : List (Felt × Felt) := []            -- deployed_contracts: address, class hash
+  replaced    : List (Felt × Felt) := []            -- replaced_classes
+  declared    : List (Felt × Felt) := []            -- declared_classes: class hash, compiled class hash
+  migrated    : List (Felt × Felt) := []            -- migrated_compiled_classes
+  oldDeclared : List Felt := []                     -- old_declared_contracts
+  deriving Inhabited
+
+/-- `for _, x := range xs { m[x.k] = x.v }` on an empty map -/
+def assignAll {α β : Type} [BEq α] (xs : List (α × β)) : AMap α β :=
+  xs.foldl (fun m kv => AMap.set m kv.1 kv.2) []
+
+/-- `sn2core.AdaptStateDiff(response)` (its only error — an address key that is not a felt — is part of
+`WireTx.bad`-like input rejection upstream: the JSON decoder of the feeder client) -/
+def adaptStateDiff (w : WireDiff) : Diff :=
+  { storage    := assignAll w.storage
+    nonces     := assignAll w.nonces
+    deployed   := assignAll w.deployed
+    declaredV1 := assignAll w.declared
+    replaced   := assignAll w.replaced
+    migrated   := assignAll w.migrated
+    declaredV0 := w.oldDeclared }
+
 /-! ## Pre-confirmed entries (`pending.PreConfirmed`) and wire updates -/
 
 /-- a `core.Transaction` as far as this property can see it: its hash and a payload tag that
@@ -619,6 +652,7 @@ structure Base where
   casm      : Felt → Option Felt
   casmV2    : Felt → Option Felt
   lastUpd   : Felt → Felt → Option Nat := fun _ _ => none   -- ContractStorageLastUpdatedBlock
+  clsAt     : Felt → Option Nat := fun _ => none             -- `Class(h).At`: the block that declared the class
 
 /-- `pending.State{stateDiff, newClasses, head}` -/
 structure PState where
@@ -659,6 +693,17 @@ def PState.cls (p : PState) (h : Felt) : Option Nat :=
   match AMap.get p.classes h with
   | some c => some c
   | none => p.head.cls h
+
+/-- `Class(h).At` as implemented: `0` for every class the view carries (`DeclaredClassDefinition{At: 0, …}`),
+the base's answer otherwise -/
+def PState.clsAt (p : PState) (h : Felt) : Option Nat :=
+  match AMap.get p.classes h with
+  | some _ => some 0
+  | none => p.head.clsAt h
+
+/-- `ClassTrie()` / `ContractTrie()` / `ContractStorageTrie(addr)`: a pre-confirmed state has no tries,
+every call returns `ErrHistoricalTrieNotSupported` (`false` = that error) -/
+def PState.trieSupported (_ : PState) : Bool := false
 
 /-- `CompiledClassHash` -/
 def PState.casm (p : PState) (h : Felt) : Option Felt :=
